@@ -785,9 +785,10 @@ class Grammar(Serialize):
 
                 for sym in expansion:
                     assert isinstance(sym, Symbol)
-                    if sym.is_term and exp_options and exp_options.keep_all_tokens:
-                        assert isinstance(sym, Terminal)
-                        sym.filter_out = False
+                if exp_options and exp_options.keep_all_tokens:
+                    # Use fresh symbols instead of changing them in place: template instances
+                    # can share a symbol object with rules that do filter their tokens.
+                    expansion = [Terminal(sym.name, filter_out=False) if sym.is_term else sym for sym in expansion]
                 rule = Rule(NonTerminal(name), expansion, i, alias, exp_options)
                 compiled_rules.append(rule)
 
